@@ -11,7 +11,13 @@ RULE = ('models with orthogonal stacked axes (aligned / other handedness / '
         'oblique frames): supported stacks for all three pipelines, every '
         'hinge/slide mix additionally for the generalized pipeline; wide '
         'limits, motor + position actuators with control range, a ground '
-        'plane far below on free-rooted models. inputs: the singular set '
+        'plane far below on free-rooted models, and two zero-gravity copies '
+        '(exact rest: every relative velocity at joints and inactive contact '
+        'candidates is exactly 0). every gradient is computed by two '
+        'programs - the system passed as a jit argument, and the system '
+        'closed over as a compile-time constant (how environments use the '
+        'pipelines; XLA folds 0/0 patterns differently) - both must be finite '
+        'and agree to 1e-6. inputs: the singular set '
         '(qd=0; q=0; each hinge at 0; axis-aligned root rotations; coincident '
         'anchors; ctrl=0 and on a range bound) where the gradient must be '
         'finite, and seeded regular points where it must equal the central '
@@ -42,7 +48,9 @@ def _models(tier, seed):
                ((-1, 0), ('HH', 'HHH'), True), ((-1, 0), ('SHH', 'HS'), False),
                ((-1, 0, 1), ('HS', 'SH', 'H'), False)]
   out = []
-  for mi, (sh, ks, sup) in enumerate(combos):
+  combos = [c + (False,) for c in combos]
+  combos += [((-1,), ('F',), True, True), ((-1, 0), ('F', 'H'), True, True)]
+  for mi, (sh, ks, sup, zero_g) in enumerate(combos):
     rng = scope.rng_for(seed, 'c03', mi)
     links = []
     for i, (k, p) in enumerate(zip(ks, sh)):
@@ -64,6 +72,11 @@ def _models(tier, seed):
       links[0]['geom'] = dict(type='sphere', size=[0.1], pos=None, quat=None)
       links[0]['quat'] = None
     s['option'] = dict(timestep=0.002)
+    if zero_g:
+      # no gravity: a body at rest stays EXACTLY at rest, so every relative
+      # velocity and displacement at the (inactive) contact candidates and
+      # joints is exactly zero - the 0/0 case of their normalisations
+      s['option']['gravity'] = [0.0, 0.0, 0.0]
     if links[0]['kind'] == 'F':
       for l in links:
         l['geom'] = dict(l['geom'], collide=True)
@@ -172,7 +185,17 @@ def _fns(pipe, n):
     g = jax.jit(jax.vmap(jax.grad(loss, argnums=(1, 2, 3)),
                          in_axes=(None, 0, 0, 0, None)))
     f = jax.jit(jax.vmap(loss, in_axes=(None, 0, 0, 0, None)))
-    _F[key] = (g, f)
+
+    def closed(sys):
+      # the way environments use the pipelines: the system is a compile-time
+      # constant closed over by the jitted function. XLA simplifies such a
+      # program differently from one that receives the system as an argument
+      # (a 0/0 in a backward pass can be folded away in one and not in the
+      # other), so finiteness is judged on both.
+      return jax.jit(jax.vmap(
+          jax.grad(lambda q, qd, c, w: loss(sys, q, qd, c, w),
+                   argnums=(0, 1, 2)), in_axes=(0, 0, 0, None)))
+    _F[key] = (g, f, closed)
   return _F[key]
 
 
@@ -191,25 +214,44 @@ def run_task(task):
   pts = sing + reg
   rng = np.random.RandomState(5)
   w = rng.uniform(0.2, 1.0, 400) * rng.choice([-1, 1], 400)
-  g, f = _fns(pipe, n)
+  g, f, closed = _fns(pipe, n)
   P = 32
   Q, D, C = pipes.pad([np.array([p[1] for p in pts]),
                        np.array([p[2] for p in pts]),
                        np.array([p[3] for p in pts]).reshape(len(pts), nu)], P)
   gq, gd, gc = [np.asarray(x)[:len(pts)] for x in g(s, Q, D, C, jp.asarray(w))]
+  # the same gradients from the program with the system closed over
+  kq, kd, kc = [np.asarray(x)[:len(pts)]
+                for x in closed(s)(Q, D, C, jp.asarray(w))]
   case0 = dict(model=task['model'], pipe=pipe, steps=n, seed=seed, tier=tier)
   for i, pt in enumerate(pts):
     res['evaluations'] += 1
     res['nontrivial'] += 1
-    fin = np.isfinite(gq[i]).all() and np.isfinite(gd[i]).all() and \
-        np.isfinite(gc[i]).all()
+    fin = all(np.isfinite(a[i]).all() for a in (gq, gd, gc, kq, kd, kc))
+    if fin:
+      ka = np.concatenate([kq[i], kd[i], kc[i]])
+      ga = np.concatenate([gq[i], gd[i], gc[i]])
+      if not np.abs(ka - ga).max() <= 1e-6 * (1 + np.abs(ga).max()):
+        res['violations'].append(dict(
+            key='C03:gradient-depends-on-compilation:%s' % pipe,
+            what='%s, %d step(s): gradient at "%s" (kinds=%s) differs between '
+            'the program with the system closed over and with the system as '
+            'an argument by %.3g' % (pipe, n, pt[0], [l['kind'] for l in
+                                                      spec['links']],
+                                     np.abs(ka - ga).max()),
+            case=dict(case0, point=pt[0])))
+        return res
     if not fin:
+      arg_ok = all(np.isfinite(a[i]).all() for a in (gq, gd, gc))
+      bq, bd, bc = (kq, kd, kc) if arg_ok else (gq, gd, gc)
       res['violations'].append(dict(
           key='C03:non-finite-gradient:%s' % pipe,
-          what='%s, %d step(s): gradient not finite at "%s" (kinds=%s): dq=%s '
-          'dqd=%s dctrl=%s' % (pipe, n, pt[0], [l['kind'] for l in
-                                                spec['links']],
-                               gq[i].tolist(), gd[i].tolist(), gc[i].tolist()),
+          what='%s, %d step(s): gradient not finite at "%s" (kinds=%s; program '
+          'with the system %s): dq=%s dqd=%s dctrl=%s' % (
+              pipe, n, pt[0], [l['kind'] for l in spec['links']],
+              'closed over (finite when the system is an argument)' if arg_ok
+              else 'as an argument',
+              bq[i].tolist(), bd[i].tolist(), bc[i].tolist()),
           case=dict(case0, point=pt[0])))
       return res
   # central differences on the regular set, at three step sizes: a coordinate
